@@ -22,6 +22,10 @@ pub fn random_opts<const N: usize>(ctx: &mut Ctx, ms: &[Scalar]) -> [Option<Scal
             _ => {}
         }
     }
+    // two slots holding the same value share one commitment scalar (equality within a proof: equal responses)
+    if N >= 2 && ctx.prng.gen_range(0..3) == 0 {
+        for i in 0..N { for j in i + 1..N { if ms[i] == ms[j] { let t = opts[i].unwrap_or_else(|| rand_scalar(&mut ctx.prng)); opts[i] = Some(t); opts[j] = Some(t); } } }
+    }
     opts
 }
 
@@ -58,6 +62,8 @@ fn cp_case<G: HG + group::GroupEncoding, const N: usize>(ctx: &mut Ctx, idx: usi
         None => return,
     };
     let _ = cp_verify_check::<G, N>(ctx, &pp, &h, &gs, &pd, &c, Some(true), "honest");
+    // elements outside the prime-order subgroup never reach the verifier: the proof does not decode
+    crate::codec::bad_point_decode_probe::<zkchannels_crypto::proofs::CommitmentProof<G, N>>(ctx, &format!("commitment-proof-{}", G::NAME), &crate::codec::cp(if G::NAME == "G1" { "A" } else { "B" }, N), &wire::ser(&_proof));
     // single-field perturbations, with the exact side conditions of the theorems
     for (label, q, cc) in tamperings(ctx, &pd, &c) {
         let kind = label.split('#').next().unwrap().trim_end_matches(char::is_numeric).to_string();
@@ -117,6 +123,7 @@ fn sp_case<const N: usize>(ctx: &mut Ctx, idx: usize) {
         None => return,
     };
     let _ = sp_verify_check::<N>(ctx, kp.public_key(), &kpd.pk, &pd, &c, Some(true), "honest");
+    crate::codec::bad_point_decode_probe::<zkchannels_crypto::proofs::SignatureProof<N>>(ctx, "signature-proof", &crate::codec::sp(N), &wire::ser(&_proof));
     for (label, q, cc) in tamperings(ctx, &pd.cp, &c) {
         let kind = label.split('#').next().unwrap().trim_end_matches(char::is_numeric).to_string();
         let sp = SpD { s1: pd.s1, s2: pd.s2, cp: q };
